@@ -183,7 +183,11 @@ def many_lifetimes(p):
         ev = []
         lifes = []
         for l in range(L):
-            if l == 0:
+            if p.get('sparse'):
+                # one item in the first lifetime (it may stay pending in a join), nothing at all for a long time, then single items in the last lifetimes:
+                # whatever survives on the slot from the first lifetime has had every chance to be taken for current again
+                its = [v0] if l == 0 else [[v3], [v1], [v2], [], [v3, v0]][l - (L - 5)] if l >= L - 5 else []
+            elif l == 0:
                 its = [v0, v1]
             elif l == L // 2:
                 its = [v2]
@@ -201,7 +205,7 @@ def many_lifetimes(p):
         outs, ok = D.lifetimes(log)
         if err or not ok or len(outs) != L:
             return fail(inner=C.show(desc), lifetimes=L, err=err, wellformed=ok, seen=len(outs))
-        for l in (0, 1, L // 2, L - 3, L - 2, L - 1):
+        for l in (0, 1, L // 2, L - 5, L - 4, L - 3, L - 2, L - 1):
             exp = standalone(lifes[l], desc)
             if outs[l] != exp:
                 return fail(inner=C.show(desc), lifetimes=L, lifetime=l, lifetime_items=lifes[l], observed=outs[l], expected=exp)
@@ -263,6 +267,9 @@ def obligations(tier, seed):
             ls = (18, 40, 260)
         for l in ls:
             obs.append(Ob(PROP, 'many_lifetimes', dict(inner=inner, l=l), budget=b * 2 if l < 100 else b * 6, group='many lifetimes on one slot', bound=dict(lifetimes=l, inner=C.show(INNERS[inner]))))
+        if inner in ('tee_zip', 'tee_cl', 'scan_add', 'nested_split', 'last'):
+            for l in ((260,) if q else (18, 40, 260, 520)):
+                obs.append(Ob(PROP, 'many_lifetimes', dict(inner=inner, l=l, sparse=True), budget=b * 6, group='many lifetimes on one slot', bound=dict(lifetimes=l, inner=C.show(INNERS[inner]), schedule='one item, a long run of empty lifetimes, single items')))
     obs.append(Ob(PROP, 'confined', dict(parent='roll22', inner='tee_zip', n=4, _twin='reach'), budget=60, expect='refute'))
     obs.append(Ob(PROP, 'slots', dict(inner='scan_add', _twin='reach'), budget=60, expect='refute'))
     return obs
